@@ -76,6 +76,14 @@ def obligations(tier):
         obs.append(Ob(f'C11.mdib.state.{name}', 'harness.C01', 'mirror_state_tx', bind={'kind': kind}, timeout=t, functions=FM,
                       stubs=STUBS, bounds='real provider + consumer MDIB, 1 context transaction, symbolic counters',
                       claim='context state tables (handle, descriptor_handle, type) equal a scan on both sides'))
+    for mod, mname in ((0, 'create_known'), (1, 'update')):
+        obs.append(Ob(f'C11.mdib.consumer.rekey.{mname}', 'harness.C06', 'description_report_rekeys', bind={'mod': mod}, timeout=t,
+                      functions=FM[4:] + ['sdc11073.multikey.MultiKeyLookup.update_object'], stubs=STUBS,
+                      bounds='real consumer MDIB with alert system; one DescriptionModificationReport part for an AlertSignal / '
+                             'AlertCondition the consumer already has, with the same / another / no ConditionSignaled resp. Source; '
+                             'symbolic MdibVersions and DescriptorVersions',
+                      claim='every index of the consumer tables equals a scan afterwards; an applied newer descriptor carries the '
+                            'reported attribute'))
     return obs
 
 MANIFEST_ENTRY = {
